@@ -264,6 +264,7 @@ class FnSpec:
         self.trace_spec = None
         self.opaque_fstrings = h.get('opaque_fstrings', False)
         self.goto_state_attr = h.get('goto_state_attr', False)
+        self.heap_dicts = h.get('heap_dicts', False)     # dict-valued objects reached through the heap (shared, mutable): field st_items
         self.assumptions = set()
         self.written_fields = set()
 
